@@ -3,7 +3,7 @@ CONSTANTS
   AlphaA = {"CF", "EN", "GA"}
   AlphaB = {"CF", "CB", "GA"}
   AlphaC = {"GT", "AL"}
-  AlphaL = {"LC", "LG", "CF"}
+  AlphaL = {"LC", "LG", "CF", "EN", "AL"}
   SortsBeforeExport = TRUE
   TwoRuns = FALSE
-INVARIANTS Emit
+INVARIANTS AnyLocIsReference Emit
